@@ -7,6 +7,9 @@ package main
 // A closed-world scan checks that no instance is built or mutated outside package initialisers.
 
 import (
+	"go/token"
+	"go/parser"
+	"go/ast"
 	"fmt"
 	"go/types"
 	"os"
@@ -68,7 +71,7 @@ func (P *Program) checkTable(ip string, pc *PkgContracts, t *TableInv) *TableRes
 	}
 	sb.WriteString("\tfmt.Println(\"VERIF-TABLES-DONE\")\n}\n")
 	// the prelude (spec functions) compiled into the test build
-	prelude := string(P.overlay[filepath.Join(pc.Dir, "zz_verif_prelude.go")])
+	prelude := withBodies(string(P.overlay[filepath.Join(pc.Dir, "zz_verif_prelude.go")]))
 	out, _, err := runReplayTestFiles(P, ip, map[string]string{
 		"zz_verif_tables_test.go":  sb.String(),
 		"zz_verif_prelude_test.go": prelude,
@@ -151,4 +154,27 @@ func runReplayTestFiles(P *Program, pkgPath string, files map[string]string, run
 	}
 	defer os.RemoveAll(dir)
 	return runTestIn(dir, pkgPath, files, run)
+}
+
+// withBodies: the prelude as compilable Go: spec functions declared without a body (uninterpreted names) get a
+// panicking body (they are never called by a table test that evaluates a defined spec function over real values;
+// if one is, the test reports the panic).
+func withBodies(src string) string {
+	fset := token.NewFileSet()
+	f, err := parser.ParseFile(fset, "prelude.go", src, parser.ParseComments)
+	if err != nil {
+		return src
+	}
+	type ins struct{ off int }
+	var at []int
+	for _, d := range f.Decls {
+		if fd, ok := d.(*ast.FuncDecl); ok && fd.Body == nil {
+			at = append(at, fset.Position(fd.End()).Offset)
+		}
+	}
+	sort.Sort(sort.Reverse(sort.IntSlice(at)))
+	for _, o := range at {
+		src = src[:o] + " { panic(\"verif: uninterpreted spec function\") }" + src[o:]
+	}
+	return src
 }
